@@ -59,8 +59,10 @@ pub fn build(dna: &[u16]) -> UCase {
             *i = FIRST_ZST + d.pick(UFIELDS.len() - FIRST_ZST);
         }
     }
-    // no padding: the union's size must equal the size of its largest field
-    loop {
+    // half of the unions have no padding (the largest field covers every byte); the others may end in tail padding, from a
+    // field that is more aligned than the largest one or from an alignment request on the union itself
+    let padded = d.chance(50);
+    while !padded {
         let max_size = idx.iter().map(|i| UFIELDS[*i].size).max().unwrap();
         let max_align = idx.iter().map(|i| UFIELDS[*i].align).max().unwrap();
         if max_size % max_align == 0 {
@@ -79,7 +81,10 @@ pub fn build(dna: &[u16]) -> UCase {
             },
         }
     }
-    let size = idx.iter().map(|i| UFIELDS[*i].size).max().unwrap();
+    let cover = idx.iter().map(|i| UFIELDS[*i].size).max().unwrap();
+    let repr: Option<(&str, usize)> = if padded { [None, None, Some(("C", 1)), Some(("align(16)", 16)), Some(("C, align(8)", 8)), Some(("align(2)", 2))][d.pick(6)] } else { None };
+    let align = idx.iter().map(|i| UFIELDS[*i].align).max().unwrap().max(repr.map(|r| r.1).unwrap_or(1));
+    let size = (cover + align - 1) / align * align;
     let names = ["a", "b", "c", "d", "e", "f"];
     let tname = ["Un", "Bits", "Raw"][d.pick(3)];
     // traits
@@ -189,7 +194,8 @@ pub fn build(dna: &[u16]) -> UCase {
     // a generic parameter must be used
     let uses_t = generic && idx.iter().any(|i| UFIELDS[*i].ty == "u32" || UFIELDS[*i].ty == "[u32; 0]");
     let (gen_decl, gen_inst) = if generic && !uses_t { ("", "") } else { (gen_decl, gen_inst) };
-    let body_def = format!("pub union {tname}{gen_decl} {{\n{fields_src}}}\n");
+    let repr_src = repr.map(|r| format!("#[repr({})]\n", r.0)).unwrap_or_default();
+    let body_def = format!("{repr_src}pub union {tname}{gen_decl} {{\n{fields_src}}}\n");
     let mut user_impls = String::new();
     if clone_only {
         // the user's own Copy impl
@@ -212,9 +218,12 @@ pub fn build(dna: &[u16]) -> UCase {
     // ---- observer
     let mut o = String::new();
     o.push_str(&format!("pub const SIZE: usize = {size};\n"));
-    o.push_str(&format!(
-        "pub fn mk(bytes: &[u8]) -> {ty} {{\n    assert_eq!(bytes.len(), ::core::mem::size_of::<{ty}>());\n    let mut u = ::core::mem::MaybeUninit::<{ty}>::zeroed();\n    unsafe {{ ::core::ptr::copy_nonoverlapping(bytes.as_ptr(), u.as_mut_ptr() as *mut u8, bytes.len()); u.assume_init() }}\n}}\n"
-    ));
+    o.push_str(&format!("pub const COVER: usize = {cover};\n"));
+    // values live in place inside byte storage and are only ever looked at through references: a typed move of a union need
+    // not preserve bytes that no field covers
+    o.push_str("#[repr(C, align(32))]\npub struct Store(pub [u8; 64]);\n");
+    o.push_str("pub fn put(bytes: &[u8]) -> Store {\n    let mut s = Store([0u8; 64]);\n    s.0[..bytes.len()].copy_from_slice(bytes);\n    s\n}\n");
+    o.push_str(&format!("pub fn view(s: &Store) -> &{ty} {{\n    assert!(::core::mem::size_of::<{ty}>() <= 64 && ::core::mem::align_of::<{ty}>() <= 32);\n    unsafe {{ &*(s.0.as_ptr() as *const {ty}) }}\n}}\n"));
     o.push_str("pub fn patterns() -> ::std::vec::Vec<::std::vec::Vec<u8>> {\n    let mut v = vec![vec![0u8; SIZE], vec![0xFFu8; SIZE]];\n");
     o.push_str("    for k in 0..SIZE { let mut p = vec![0u8; SIZE]; p[k] = 1; v.push(p); let mut q = vec![0xFFu8; SIZE]; q[k] = 0x7F; v.push(q); }\n");
     o.push_str("    v.push((0..SIZE).map(|k| (k as u8).wrapping_mul(37).wrapping_add(11)).collect());\n    v.push((0..SIZE).map(|k| (k as u8).wrapping_mul(101).wrapping_add(200)).collect());\n    v\n}\n");
@@ -229,8 +238,8 @@ pub fn build(dna: &[u16]) -> UCase {
     o.push_str("pub fn run(o: &mut Out) {\n");
     o.push_str(&format!("    o.check(::core::mem::size_of::<{ty}>() == SIZE, || format!(\"HARNESS: size {{}} != {{}}\", ::core::mem::size_of::<{ty}>(), SIZE));\n"));
     o.push_str("    let pats = patterns();\n");
-    o.push_str(&format!("    let xs: ::std::vec::Vec<{ty}> = pats.iter().map(|p| mk(p)).collect();\n"));
-    o.push_str("    for (i, x) in xs.iter().enumerate() {\n        let bytes = &pats[i];\n");
+    o.push_str("    let store: ::std::vec::Vec<Store> = pats.iter().map(|p| put(p)).collect();\n");
+    o.push_str(&format!("    for i in 0..store.len() {{\n        let x: &{ty} = view(&store[i]);\n        let bytes = &pats[i];\n"));
     o.push_str("        o.check(&bytes_of(x) == bytes, || \"HARNESS: value does not hold its pattern\".to_string());\n");
     if has_debug {
         o.push_str("        for (k, (got, exp)) in [(format!(\"{:?}\", x), format!(\"{:?}\", DbgOracle(bytes))), (format!(\"{:#?}\", x), format!(\"{:#?}\", DbgOracle(bytes)))].into_iter().enumerate() {\n");
@@ -241,10 +250,11 @@ pub fn build(dna: &[u16]) -> UCase {
         o.push_str("        o.check(got == exp, || format!(\"pattern {i}: hasher received {:?}, one byte slice of the value would give {:?}\", got, exp));\n        o.tally(\"hash\", 1);\n");
     }
     if has_clone {
-        o.push_str("        let c = x.clone();\n        o.check(bytes_of(&c) == *bytes, || format!(\"pattern {i}: clone is not a bitwise copy\"));\n        o.tally(\"clone\", 1);\n");
+        // (the clone is a moved value: only the bytes covered by a field are compared)
+        o.push_str(&format!("        let c: {ty} = ::core::clone::Clone::clone(x);\n        let cb = unsafe {{ ::core::slice::from_raw_parts(&c as *const {ty} as *const u8, COVER) }};\n        o.check(cb == &bytes[..COVER], || format!(\"pattern {{i}}: clone is not a bitwise copy\"));\n        o.tally(\"clone\", 1);\n"));
     }
     if has_peq {
-        o.push_str("        for (j, y) in xs.iter().enumerate() {\n            let exp = pats[i] == pats[j];\n            let got = x == y;\n");
+        o.push_str("        for j in 0..store.len() {\n            let y = view(&store[j]);\n            let exp = pats[i] == pats[j];\n            let got = x == y;\n");
         o.push_str("            o.check(got == exp && (x != y) == !exp, || format!(\"patterns {i},{j}: == says {got}, byte comparison says {exp}\"));\n");
         o.push_str("            if !exp { o.tally(\"eq_false\", 1); } else { o.tally(\"eq_true\", 1); }\n        }\n");
     }
@@ -301,7 +311,13 @@ pub fn build(dna: &[u16]) -> UCase {
     if md {
         classes.push("manually_drop_parameter".into());
     }
-    UCase { def, body, without_unsafe, nontrivial: (sizes_differ && first_size < size) || size == 0, classes }
+    if size > cover {
+        classes.push("tail_padding".into());
+    }
+    if let Some(r) = repr {
+        classes.push(format!("repr_{}", r.0.replace(", ", "_").replace('(', "").replace(')', "")));
+    }
+    UCase { def, body, without_unsafe, nontrivial: (sizes_differ && first_size < size) || size == 0 || size > cover, classes }
 }
 
 pub fn run(ctx: &Ctx) -> i32 {
@@ -310,12 +326,13 @@ pub fn run(ctx: &Ctx) -> i32 {
     }
     let mut rep = Report::new(
         ctx,
-        "unions with 1..5 fields over sizes 0..16 (zero-sized unions included) and alignments 1..8 (arrays, integers, floats, a generic T: Copy) whose largest field covers every byte, \
-         name default/false/custom, trait sets within {Debug, PartialEq, Eq, Hash, Clone, Copy, Default}; values are built by copying byte patterns \
-         (all-zero, all-FF, a single differing byte at every offset, two mixed patterns) into zeroed storage; oracle: Debug equals debug_tuple(name).field(&bytes) \
+        "unions with 1..5 fields over sizes 0..16 (zero-sized unions included) and alignments 1..8 (arrays, integers, floats, a generic T: Copy); in half of them the largest field covers every byte, the others may end in tail padding \
+         (a smaller but more aligned field, repr(C), repr(align(2|8|16))); name default/false/custom, trait sets within {Debug, PartialEq, Eq, Hash, Clone, Copy, Default}; \
+         values are byte patterns (all-zero, all-FF, a single differing byte at every offset - padding included -, two mixed patterns) held in place in aligned byte storage \
+         and only looked at through references (a typed move need not preserve bytes no field covers; the moved result of clone() is compared on the covered bytes); oracle: Debug equals debug_tuple(name).field(&bytes) \
          or Debug for [u8] in both formats, == iff the size_of::<Self>() bytes are equal, the recording hasher sees exactly Hash::hash(&bytes[..]), clone is \
          byte-identical and the type is Copy, default() holds the designated field's expression or default; every definition with `unsafe` removed or not \
-         first must be refused in-process; non-trivial = fields of different sizes with the first field smaller than the union, or a zero-sized union; distinct by definition hash",
+         first must be refused in-process; non-trivial = fields of different sizes with the first field smaller than the union, a zero-sized union, or tail padding; distinct by definition hash",
     );
     rep.assumptions.push("all size_of::<Self>() bytes are initialised, which is the documented contract of these impls".into());
     let so = match engine::build_proc_macro() {
